@@ -235,6 +235,7 @@ def run(ctx: Ctx) -> int:
     ok = bool(loops) and any(isinstance(s, ast.Assign) and isinstance(s.targets[0], ast.Subscript) and root_name(s.targets[0].value) == "self" for s in walk_local(loops[0]))
     ctx.oblige("C05.c", ok, loops[0] if loops else init, "Namespace(dict) assigns item by item through __setitem__: dotted keys and nested mappings address the same leaves" if ok else "Namespace(dict) no longer goes through item assignment", fn=init)
     aa = ctx.func("_core:ArgumentParser._apply_actions")
+    ctx.expect_locals(aa, ["cfg", "value", "keys", "action_dest"])
     conv = [s for s in walk_local(aa) if isinstance(s, ast.Assign) and isinstance(s.value, ast.Call) and call_leaf(s.value) == "Namespace" and s.value.args and root_name(s.value.args[0]) in ("cfg", "value")]
     ok = len(conv) >= 2
     ctx.oblige("C05.c", ok, conv[0] if conv else aa, "the object channel converts nested dicts to namespaces level by level before applying actions" if ok else "_apply_actions no longer expands nested dicts", fn=aa, construct="nested dict expansion")
